@@ -71,6 +71,13 @@ func (c *Cas) Exists(ctx context.Context, digest string) (bool, error) {
 	}
 
 	exists, err := c.backend.Exists(ctx, "cas", digest)
+	// Exists is used to skip writes: for layered backends (local + remote) the digest
+	// has to be present in every layer, otherwise it still needs to be written through
+	if layeredBackend, isLayered := c.backend.(interface {
+		ExistsInAllLayers(ctx context.Context, path string, key string) (bool, error)
+	}); isLayered && err == nil && exists {
+		exists, err = layeredBackend.ExistsInAllLayers(ctx, "cas", digest)
+	}
 	if err != nil {
 		return false, err
 	}
